@@ -49,6 +49,11 @@ def first(I, nm):
 def checkall(ifs, log, tag):
     bad = []
     for I in ifs:
+        # "all of these follow later changes of __bases__": the order itself is recomputed independently from the
+        # current __bases__ (Python's MRO of the identically shaped class hierarchy) whenever a C3 order exists
+        m = common.mirror_mro(I)
+        if m is not None and (len(m) != len(I.__iro__) or any(a is not b for a, b in zip(m, I.__iro__))):
+            return [('iro', '%s: %s.__iro__ is %r, the current __bases__ give %r' % (tag, I.__name__, common.names(I.__iro__), common.names(m)))]
         nad = dict(I.namesAndDescriptions(all=True))
         names_all = set(I.names(all=True))
         it = set(iter(I))
@@ -120,6 +125,8 @@ def play(spec):
                     new.append(c)
         for I in ifs:          # warm the memo
             I.get('x'), I.get('y')
+        if nb and nb[0] % 3 == 0 and len(ifs[k].__bases__) > 1:
+            new = list(reversed(ifs[k].__bases__))       # a re-basing that only reorders
         try:
             ifs[k].__bases__ = tuple(new) or (Interface,)
         except TypeError:
@@ -139,10 +146,28 @@ def random_spec(rnd):
 
 
 def replay(spec):
-    bad, _ = play(spec)
+    bad, _ = play_permute(spec) if spec[4] == 'permute' else play(spec)
     for sig, what in bad[:6]:
         print('violated:', sig, what)
     sys.exit(1 if bad else 0)
+
+
+# a chain below a join whose two bases both define x and carry tag t; re-basings that only permute the join's bases
+PERMUTE = (((), (), (0, 1), (2,), (3,)), ((0, 'x'), (1, 'x'), (0, 'y')), (0, 1), (0, 1), 'permute')
+
+
+def play_permute(spec):
+    ifs, log = build(spec[:4] + ((),))
+    bad = checkall(ifs, log, 'fresh')
+    join = ifs[2]
+    for si in range(3):
+        if bad:
+            break
+        for I in ifs:
+            I.get('x'), I.get('y')
+        join.__bases__ = tuple(reversed(join.__bases__))
+        bad = checkall(ifs, log, 'after permuting the bases of %s (step %d)' % (join.__name__, si))
+    return bad, len(ifs) * 12 * 4
 
 
 DIAMOND = (((), (0,), (0,), (1, 2)), ((0, 'x'), (2, 'x')), (0, 2), (0, 1, 2), ())
@@ -151,13 +176,18 @@ DIAMOND = (((), (0,), (0,), (1, 2)), ((0, 'x'), (2, 'x')), (0, 2), (0, 1, 2), ()
 def run(ctx):
     ctx.rule = ('all definitions of 2 names over every ordered DAG shape with <=4 interfaces (quick: the README diamond family '
                 'plus random) and random DAGs <=5 with random definers, tags and invariants, <=3 re-basings with warm memo; '
-                'every accessor compared with "first definer along __iro__"; distinct = (shape, definers, history)')
+                '__iro__ itself compared with the order recomputed from the current __bases__ (Python MRO of the mirrored classes), every accessor compared with "first definer along __iro__"; re-basings include pure permutations below 3-deep chains; distinct = (shape, definers, history)')
     ctx.bounds = 'interfaces<=5, names=2, history<=3'
     bad, n = play(DIAMOND)
     ctx.evaluations += n
     ctx.distinct.add(DIAMOND)
     for sig, what in bad[:1]:
         ctx.violation(sig, what, 'from falsify.C15 import replay\nreplay(%r)\n' % (DIAMOND,))
+    bad, n = play_permute(PERMUTE)
+    ctx.evaluations += n
+    ctx.distinct.add(PERMUTE)
+    for sig, what in bad[:1]:
+        ctx.violation(sig, what, 'from falsify.C15 import replay\nreplay(%r)\n' % (PERMUTE,))
     trials = 400 if ctx.tier == 'quick' else 5000
     for t in range(trials):
         if ctx.out_of_time() or ctx.too_many():
